@@ -4,7 +4,7 @@ TECHNIQUE = "CBMC bounded symbolic execution of evdns.c query construction, outp
 UNITS = ["evdns.c"]
 FUNCTIONS = ["evdns_request_data_build", "dnsname_to_labels", "evdns_request_len", "request_new"]
 BOUNDS = ("evdns_request_data_build: every name of <= 6 (quick) / 8 (thorough) arbitrary octets, symbolic id/type/class/global_max_udp_size, exact-size buffer of "
-          "evdns_request_len() bytes; one label of symbolic length 0..64 + optional trailing dot (thorough); request_new: names <= 3 / 4 octets, symbolic "
+          "evdns_request_len() bytes; one label of symbolic length 0..64 + optional trailing dot (thorough); request_new (thorough tier only): names <= 3 octets, symbolic "
           "randomize_case + random bits + EDNS + issue-now on a constructed evdns_base (one request list, no nameserver).")
 OUT = ("search-list expansion order (search_request_new/search_make_new/search_try_next); names longer than 8 octets except the single-label 63/64 case: the "
        "253/254/255-octet name limit could not be decided (any harness with a ~260-byte name exceeds 12 GB; by reading, dnsname_to_labels accepts name_len <= 255 "
@@ -48,9 +48,8 @@ def reqnew(name, N, wf, **kw):
 
 def obligations(tier):
     if tier == "quick":
-        obs = [build("build_wf_N6", 6, True), build("build_all_N6", 6, False), reqnew("request_new_wf_N3", 3, True)]
-    else:
-        obs = [build("build_wf_N8", 8, True), build("build_all_N8", 8, False),
-               reqnew("request_new_wf_N4", 4, True, timeout=1200), reqnew("request_new_all_N3", 3, False),
-               longn("long_f0", 0, None, mem_gb=10, timeout=1500)]
-    return obs
+        return [build("build_wf_N6", 6, True), build("build_all_N6", 6, False)]
+    # request_new: 7M variables / 7.5 GB / 6-11 min under load -> thorough tier only
+    return [build("build_wf_N8", 8, True, timeout=1200), build("build_all_N8", 8, False, timeout=1200),
+            reqnew("request_new_wf_N3", 3, True, timeout=2400, mem_gb=12), reqnew("request_new_all_N3", 3, False, timeout=2400, mem_gb=12),
+            longn("long_f0", 0, None, mem_gb=12, timeout=2400)]
